@@ -66,6 +66,12 @@ func (f *CSVFormatter) writeValue(s string) {
 }
 
 func (f *CSVFormatter) prepareLine(line interface{}) map[string]interface{} {
+	// A missing value (such as the name of an individual without a name) is
+	// an empty line.
+	if gedcom.IsNil(line) {
+		return nil
+	}
+
 	if m, ok := line.(gedcom.ObjectMapper); ok {
 		return m.ObjectMap()
 	}
@@ -79,7 +85,9 @@ func (f *CSVFormatter) prepareLine(line interface{}) map[string]interface{} {
 	if l.Kind() == reflect.Map {
 		m := map[string]interface{}{}
 		for _, name := range l.MapKeys() {
-			m[name.Interface().(string)] = l.MapIndex(name).Interface()
+			// The keys are not always strings.
+			key := fmt.Sprintf("%v", name.Interface())
+			m[key] = l.MapIndex(name).Interface()
 		}
 
 		return m
